@@ -131,6 +131,7 @@ def sdbOk (watch : List NameId) (P Q : State) : Op → Res → Bool
   | .cleanOut n, .user lid =>
     lid == n.text.bind P.db.get &&
     watch.all fun w =>
+      !truthy w.text ||                    -- an identifier without a value is not an identifier
       (match lid with
        | some u => (held P.db u).contains w.norm
        | none => false) || cnt Q.sdb w == cnt P.sdb w
@@ -147,16 +148,6 @@ def textOk (users : List Str) (n : NameId) : Bool :=
   match n.text with
   | some t => !t.isEmpty && !users.contains t
   | none => false
-
-/-- requester and format `construct_nameid` ends up with -/
-def constructSpq (spq : Option Str) (pol : Option Policy) : Option Str :=
-  match pol with
-  | some p => if truthy p.spq then p.spq else spq
-  | none => spq
-def constructFmt (localFmt : Option Str) (pol : Option Policy) : Option Str :=
-  match pol with
-  | some p => if truthy p.fmt then p.fmt else localFmt
-  | none => localFmt
 
 def opOk (users : List Str) (cfg : Cfg) : Op → Bool
   | .persistent u _ _ cands => users.contains u && candsOk users cfg cands
